@@ -12,6 +12,7 @@ Oracle : a model of the files, of the cache and (when a module directory is used
          acceptable outcome = a MUST verdict, several = EITHER (the model then adopts what it observed).
 """
 import os
+import time
 
 from vf import core
 from vf.core import Failure
@@ -78,6 +79,10 @@ def broken_text(kind, tok):
     if kind == 1:
         return "%% if x:\n%s\n" % tok
     return "%s <%%def>x</%%def>\n" % tok
+
+
+class BudgetExhausted(Exception):
+    """The tier's wall-clock budget is used up: stop exploring (never a verdict)."""
 
 
 class Violation(AssertionError):
@@ -685,7 +690,7 @@ def classify(f):
 
 
 # ---------------------------------------------------------------------------
-def make_machine(base_cfg, ev, known, state):
+def make_machine(base_cfg, ev, known, state, deadline=None):
     from hypothesis import strategies as st
     from hypothesis.stateful import RuleBasedStateMachine, initialize, precondition, rule
 
@@ -733,6 +738,8 @@ def make_machine(base_cfg, ev, known, state):
         @initialize(ndirs=st.integers(1, 3), hot=st.sampled_from([2, 3, 4, 6, 8]),
                     pre=st.lists(st.tuples(dirs, st.integers(0, NURI - 1), ck), min_size=2, max_size=6))
         def init(self, ndirs, hot, pre):
+            if deadline is not None and time.time() > deadline:  # budget only; no oracle looks at the wall clock
+                raise BudgetExhausted()
             cfg = dict(base_cfg, ndirs=ndirs, hot=hot)
             self.w = World(cfg, known_ids=known).open()
             for d, u, k in pre:
@@ -911,7 +918,7 @@ def record(ev, w, state):
 
 
 def shard(task):
-    cfg_i, seed, n = task
+    cfg_i, seed, n, deadline = task
     core.setup_repo()
     import hypothesis
     from hypothesis import HealthCheck, Phase, settings
@@ -922,7 +929,10 @@ def shard(task):
     ev = core.Evidence()
     known = core.load_known(PID)
     state = {}
-    Machine = make_machine(base_cfg, ev, known, state)
+    if deadline is not None and time.time() > deadline:
+        ev.notes["shards_not_started_budget"] = 1
+        return ev, []
+    Machine = make_machine(base_cfg, ev, known, state, deadline)
     st_ = settings(
         max_examples=n,
         stateful_step_count=MAXOPS,
@@ -941,6 +951,8 @@ def shard(task):
     except Violation as v:
         f = Failure(v.case, v.detail, v.key)
         fails.append(minimise(f))
+    except BudgetExhausted:
+        ev.notes["shards_cut_short_budget"] = 1
     ev.notes["steps"] = state.get("steps", 0)
     return ev, fails
 
@@ -948,15 +960,21 @@ def shard(task):
 def run(ctx):
     n = ctx.pick(300, 1200)
     reps = ctx.pick(1, 8)
+    # Wall-clock budget (DESIGN 2: "a wall-clock budget ends a tier as 'explored this much', never as a violation").
+    # On 16 idle cores the full plan needs ~15 s (quick) / ~6 min (thorough) and the budget is never reached.
+    budget = float(os.environ.get("VERIF_C14_BUDGET", ctx.pick(50, 660)))
+    deadline = ctx.t0 + budget
     tasks = []
-    for r in range(reps):
-        for i in range(len(CONFIGS)):
-            fs = CONFIGS[i][0]
-            # with filesystem_checks off the freshness dynamics are trivial: half the budget
-            tasks.append((i, ctx.shard_seed("%d/%d" % (i, r), "sm"), n if fs else n // 2))
-    # longest shards first
-    tasks.sort(key=lambda t: -t[2])
+    for r in range(reps):  # repetition-major: every configuration is covered before any gets a second shard
+        for fs_first in (True, False):
+            for i in range(len(CONFIGS)):
+                fs = CONFIGS[i][0]
+                if fs != fs_first:
+                    continue
+                # with filesystem_checks off the freshness dynamics are trivial: half the machines
+                tasks.append((i, ctx.shard_seed("%d/%d" % (i, r), "sm"), n if fs else n // 2, deadline))
     ctx.pmap(shard, tasks)
+    ctx.ev.notes["wall_budget_s"] = budget
     ctx.ev.notes["label_totals"] = dict(sorted(ctx.ev.labels.items()))
     ctx.ev.notes["machines_per_shard"] = n
     ctx.ev.notes["shards"] = len(tasks)
